@@ -67,6 +67,7 @@ class Check:
         self.timeout_ms = 10_000 if tier == "quick" else 60_000
         self.bounded = []
         self.engine_stats = {}
+        self.second = {"checked": 0, "agree": 0, "disagree": 0, "undecided": 0}
 
     # ------------------------------------------------------------------ registration
     def function(self, qualname, mode="verified"):
@@ -140,6 +141,8 @@ class Check:
         ob.backend[be] = ob.backend.get(be, 0) + 1
         if res == "unsat":
             ob.discharged += 1
+            if self.tier == "thorough":
+                self.second_opinion(ob, list(pc) + excl + [z3.Not(goal)])
         elif res == "sat":
             inputs = describe(model) if describe else {"model": self.model_text(model)}
             entry = {"inputs": inputs, "model": self.model_text(model)}
@@ -163,6 +166,26 @@ class Check:
         if sample is not None and len(self.samples) < 12:
             self.samples.append({"obligation": name, "vc": sample, "verdict": res, "seconds": round(dt, 4)})
         return res == "unsat"
+
+    def second_opinion(self, ob, assertions):
+        """thorough tier: every discharged VC is exported as SMT-LIB 2 and re-checked by an independent solver build (/usr/bin/z3 4.8.12);
+        `sat` there is a solver disagreement -> checker fault (exit 3); unknown/timeout is recorded, not a verdict"""
+        s = z3.Solver()
+        s.add(*assertions)
+        smt = s.to_smt2()
+        try:
+            p = subprocess.run(["/usr/bin/z3", "-in", "-T:20"], input=smt, capture_output=True, text=True, timeout=30)
+            out = (p.stdout.strip().splitlines() or ["?"])[0]
+        except Exception as e:  # noqa: BLE001
+            out = f"error: {e!r}"
+        self.second["checked"] += 1
+        if out == "unsat":
+            self.second["agree"] += 1
+        elif out == "sat":
+            self.second["disagree"] += 1
+            self.faults.append(f"solver disagreement on {ob.name}: z3 5.1 says unsat, z3 4.8.12 says sat")
+        else:
+            self.second["undecided"] += 1
 
     def require_sat(self, name, pc, extra=(), desc=""):
         """vacuity / reachability guard: pc (and extra) must be satisfiable"""
@@ -266,6 +289,7 @@ class Check:
             "known_findings_printed": self.known_printed,
             "solver_seconds": round(sum(o.solver_s for o in self.obls.values()), 3),
             "engine_stats": self.engine_stats,
+            "second_solver_recheck": dict(self.second, solver="/usr/bin/z3 4.8.12 via SMT-LIB2 export (thorough tier only)"),
             "samples": self.samples or [{"obligation": r["obligation"], "verdict": r["verdict"]} for r in obl_report[:8]],
             "notes": self.notes,
         }
